@@ -68,6 +68,68 @@ if os.environ.get("PYTHON_MYPY_VERIF") == "1" and os.environ.get("VERIF_CTL"):
         w.process_stale_scc_implementation = p_impl
         w.timed_send = p_send
 
+        if os.environ.get("VERIF_OPLOG"):
+            # C04 parallel lane: number this worker's store operations, log them, and apply a fault plan
+            # VERIF_FAULT = {"w": idx, "kill_before": k} | {"w": idx, "kill_after": k} | {"w": idx, "fail": [k, ...]}
+            import mypy.metastore as ms0
+
+            plan = json.loads(os.environ.get("VERIF_FAULT") or "{}")
+            mine = plan.get("w") == idx
+            counter = {"n": 0}
+            logfd = os.open(os.path.join(os.environ["VERIF_OPLOG"], f"w{idx}.log"),
+                            os.O_WRONLY | os.O_CREAT | os.O_APPEND, 0o644)
+
+            def tick(kind, name):
+                k = counter["n"]
+                counter["n"] += 1
+                os.write(logfd, (json.dumps([k, kind, name]) + "\n").encode())
+                if mine and plan.get("kill_before") == k:
+                    os._exit(137)
+                return k
+
+            def after(k):
+                if mine and plan.get("kill_after") == k:
+                    os._exit(137)
+
+            for cls0 in (ms0.FilesystemMetadataStore, ms0.SqliteMetadataStore):
+                def wrap(cls_):
+                    o_write, o_remove, o_commit = cls_.write, cls_.remove, cls_.commit
+
+                    def write(self, name, data, mtime=None):
+                        k = tick("write", name)
+                        if mine and k in (plan.get("fail") or []):
+                            after(k)
+                            return False
+                        r = o_write(self, name, data, mtime)
+                        after(k)
+                        return r
+
+                    def remove(self, name):
+                        k = tick("remove", name)
+                        try:
+                            return o_remove(self, name)
+                        finally:
+                            after(k)
+
+                    def commit(self):
+                        k = tick("commit", "")
+                        r = o_commit(self)
+                        after(k)
+                        return r
+
+                    cls_.write, cls_.remove, cls_.commit = write, remove, commit
+                    if cls_ is ms0.SqliteMetadataStore:
+                        o_cp = cls_.commit_path
+
+                        def commit_path(self, name):
+                            k = tick("commit_path", name)
+                            r = o_cp(self, name)
+                            after(k)
+                            return r
+
+                        cls_.commit_path = commit_path
+                wrap(cls0)
+
         if os.environ.get("VERIF_STORE_CLOCK") == "content":
             # owned clock for cache records written by workers (same rule as the coordinator's proxy)
             import zlib
